@@ -1096,6 +1096,11 @@ func (ma *ModAnalysis) RetFresh(fn *ssa.Function, i int) bool {
 	return i < len(rf) && rf[i]
 }
 
+// globalContentWritten: the container held by the package-level variable is written after initialisation.
+func (ma *ModAnalysis) globalContentWritten(g *ssa.Global) bool {
+	return len(ma.MutatedGlobals[g]) > 0
+}
+
 func (ma *ModAnalysis) noteMutatedGlobal(g *ssa.Global, fn *ssa.Function) {
 	if ma.MutatedGlobals == nil {
 		ma.MutatedGlobals = map[*ssa.Global]map[string]bool{}
